@@ -22,6 +22,7 @@ KINDS = {
     'z[p q=v]': dict(sc=False, attrs=['caret', None], text=None),
     'w[p q]/': dict(sc=True, attrs=['caret', 'caret'], text=None),
     'k/': dict(sc=True, attrs=[], text=None),
+    'body': dict(sc=False, attrs=[], text=None),          # in the default output.formatForce list: its caret gets a line of its own
     'e[p=${1} q=${1:d}]': dict(sc=False, attrs=[[1], [1]], text=None),
     'e[p=${2} q=${1}]': dict(sc=False, attrs=[[2], [1]], text=None),
     'f{${1:a} ${3} ${1}}': dict(sc=False, attrs=[], text=[1, 3, 1]),
@@ -33,7 +34,9 @@ MARKUP_SYNTAXES = ['html', 'xml', 'jsx', 'haml', 'pug', 'slim']
 STYLE_ABBRS = ['p', 'bd', 'p+bd', '@kf', 'trf:rx', 'lg', 'p10+m5-a!', '@ff', 'c#f.5']
 STYLE_SYNTAXES = ['css', 'sass', 'stylus']
 LAYOUTS = [dict(zip(('output.newline', 'output.indent', 'output.baseIndent'), v))
-           for v in itertools.product(('\n', '\r\n'), ('\t', '    '), ('', '  ', '\t\t'))]
+           for v in itertools.product(('\n', '\r\n', '\r'), ('\t', '    '), ('', '  ', '\t\t'))]
+# numbering is checked without formatting, with it, and with every leaf formatted (the caret is then written on an inner line)
+NUM_FORMATS = [{'output.format': False}, {'output.format': True}, {'output.format': True, 'output.formatLeafNode': True}]
 FIXED_WRAP = ['ul>li*', 'x*>y', 'p>{$#}', 'x[t=$#]*', 'y']
 BOUNDS = {
     'quick': dict(num=[(1, 1, 1), (2, 1, 1), (3, 0, 0)], pos=[(1, 0, 1), (2, 0, 0)]),
@@ -46,7 +49,7 @@ def describe(tier):
     b = BOUNDS[tier]
     return dict(
         rule='Numbering: skeletons with (elements, groups, repeaters) in %s x all kind assignments from %s, syntaxes html and pug, '
-             'format off. Positions: skeletons in %s x kinds %s x syntaxes %s x all 12 combinations of newline {\\n, \\r\\n} x indent '
+             'format off / on / on with formatLeafNode. Positions: skeletons in %s x kinds %s x syntaxes %s x all 18 combinations of newline {\\n, \\r\\n, \\r} x indent '
              '{tab, 4 spaces} x baseIndent {"", 2 spaces, 2 tabs} x output.text identity / wrapping variant, plus %d wrap-text '
              'abbreviations with 2 lines and %d stylesheet abbreviations in %s. Transition = one production / one option toggle.' % (
                  b['num'], list(KINDS), b['pos'], POS_KINDS, MARKUP_SYNTAXES, len(FIXED_WRAP), len(STYLE_ABBRS), STYLE_SYNTAXES),
@@ -127,10 +130,10 @@ def values_in_document_order(tree, out=None):
     return out
 
 
-def check_numbering(seq, labels, syntax):
+def check_numbering(seq, labels, syntax, fmt=0):
     abbr = M.render(seq, labels)
     try:
-        out, recs = run(abbr, {'syntax': syntax, 'options': {'output.format': False}})
+        out, recs = run(abbr, {'syntax': syntax, 'options': dict(NUM_FORMATS[fmt])})
     except Exception as e:
         return abbr, ('exception:%s' % type(e).__name__, str(e)[:120])
     tree = M.unroll(M.denote(seq, labels))
@@ -194,18 +197,19 @@ def run_shard(shard, ctx, tier):
             if idx % of != k:
                 continue
             for syntax in ('html', 'pug'):
+              for fi in range(len(NUM_FORMATS)):
                 ctx.tick((seq, labels, syntax))
                 ctx.states += 1
                 ctx.transitions += 1
                 ctx.evals += 1
                 ctx.validated += 1
-                abbr, bad = check_numbering(seq, labels, syntax)
+                abbr, bad = check_numbering(seq, labels, syntax, fi)
                 ctx.nontrivial += 1
                 if bad == 'unspecified':
                     ctx.skip('text with fields that has children (children replace the first field)')
                     continue
                 if bad:
-                    ctx.violation(bad[0], dict(part='num', seq=seq, labels=labels, syntax=syntax), bad[1])
+                    ctx.violation(bad[0] + (':formatted' if fi else ''), dict(part='num', seq=seq, labels=labels, syntax=syntax, fmt=fi), bad[1])
             ctx.outcome(tuple(sorted(set(labels))))
     elif shard['part'] == 'pos':
         for idx, (seq, labels) in enumerate(cases_pos(tier)):
@@ -275,8 +279,8 @@ def _tuplify(seq):
 
 def check_case(case):
     if case['part'] == 'num':
-        _, bad = check_numbering(_tuplify(case['seq']), case['labels'], case['syntax'])
-        return [bad] if bad and bad != 'unspecified' else []
+        _, bad = check_numbering(_tuplify(case['seq']), case['labels'], case['syntax'], case.get('fmt', 0))
+        return [(bad[0] + (':formatted' if case.get('fmt') else ''), bad[1])] if bad and bad != 'unspecified' else []
     lay = LAYOUTS[case['layout']]
     if case.get('stylesheet'):
         cfg = {'type': 'stylesheet', 'syntax': case['syntax'], 'options': dict(lay)}
